@@ -361,6 +361,7 @@ def source_obligations(prop, mod, work):
     with open(lean_file, 'w') as f:
         for imp in getattr(mod, 'SOURCE_IMPORTS', []):
             f.write('import %s\n' % imp)
+        f.write('set_option linter.unusedVariables false\n')
         for term, v in vals.items():
             info[term] = v
             if isinstance(v, int):
@@ -386,7 +387,10 @@ def source_obligations(prop, mod, work):
     q = subprocess.run(['lake', 'env', 'lean', lean_file], cwd=LEAN, stdout=subprocess.PIPE,
                        stderr=subprocess.STDOUT, text=True, timeout=600)
     if q.returncode != 0:
-        problems.append('model differs from the source (generated obligation failed): %s' % q.stdout.strip()[:900])
+        out = q.stdout.strip()
+        i = out.find('error')
+        problems.append('model differs from the source (generated obligation failed): %s'
+                        % out[max(0, out.rfind('\n', 0, i) + 1) if i >= 0 else 0:][:900])
     return {'info': info, 'problems': problems}
 
 
